@@ -232,6 +232,58 @@ Proof.
   - apply (shape_suffix None v v); [reflexivity | intros; apply like_plain; assumption].
 Qed.
 
+(* PostgreSQL and MySQL (documentation): without an ESCAPE clause the escape character of LIKE is the backslash.
+   Pony adds ESCAPE '!' only when it escaped something, so the constant branch without % and _ runs under that default. *)
+Definition like_of_bs (pe : str * bool) (s : str) : bool :=
+  like_match (if snd pe then Some like_escape_char else Some 92) (fst pe) s.
+
+Lemma existsb_is_esc_92 : forall v, mem_char 92 v = false -> existsb (is_esc (Some 92)) v = false.
+Proof. intros v H. exact H. Qed.
+
+Lemma like_const_contains_bs : forall v s, mem_char 92 v = false -> (like_of_bs (like_const_contains v) s = true <-> is_infix v s).
+Proof.
+  intros v s Hb. unfold like_of_bs, like_const_contains.
+  destruct (mem_char 37 v) eqn:E1; [|destruct (mem_char 95 v) eqn:E2]; cbn [fst snd app].
+  - rewrite <- ?app_assoc. apply (shape_infix (Some 33) _ v); [reflexivity | apply esc_strip].
+  - rewrite <- ?app_assoc. apply (shape_infix (Some 33) _ v); [reflexivity | apply esc_strip].
+  - rewrite <- ?app_assoc. apply (shape_infix (Some 92) v v); [reflexivity | intros; apply like_plain_esc; assumption].
+Qed.
+
+Lemma like_const_startswith_bs : forall v s, mem_char 92 v = false -> (like_of_bs (like_const_startswith v) s = true <-> is_prefix v s).
+Proof.
+  intros v s Hb. unfold like_of_bs, like_const_startswith.
+  destruct (mem_char 37 v) eqn:E1; [|destruct (mem_char 95 v) eqn:E2]; cbn [fst snd].
+  - apply (shape_prefix (Some 33) _ v); [reflexivity | apply esc_strip].
+  - apply (shape_prefix (Some 33) _ v); [reflexivity | apply esc_strip].
+  - apply (shape_prefix (Some 92) v v); [reflexivity | intros; apply like_plain_esc; assumption].
+Qed.
+
+Lemma like_const_endswith_bs : forall v s, mem_char 92 v = false -> (like_of_bs (like_const_endswith v) s = true <-> is_suffix v s).
+Proof.
+  intros v s Hb. unfold like_of_bs, like_const_endswith.
+  destruct (mem_char 37 v) eqn:E1; [|destruct (mem_char 95 v) eqn:E2]; cbn [fst snd app].
+  - apply (shape_suffix (Some 33) _ v); [reflexivity | apply esc_strip].
+  - apply (shape_suffix (Some 33) _ v); [reflexivity | apply esc_strip].
+  - apply (shape_suffix (Some 92) v v); [reflexivity | intros; apply like_plain_esc; assumption].
+Qed.
+
+(* the parameter branch always carries ESCAPE '!' and is not affected *)
+Lemma like_param_bs : forall x s,
+  like_of_bs (like_param_contains x) s = like_of (like_param_contains x) s /\
+  like_of_bs (like_param_startswith x) s = like_of (like_param_startswith x) s /\
+  like_of_bs (like_param_endswith x) s = like_of (like_param_endswith x) s.
+Proof. intros. repeat split; reflexivity. Qed.
+
+(* "\" in s  on PostgreSQL / MySQL: the pattern %\% asks for a literal percent sign at the end *)
+Lemma like_const_bs_refuted :
+  like_of_bs (like_const_contains [92]) [97; 92; 98] = false /\ is_infix [92] [97; 92; 98]
+  /\ like_of_bs (like_const_contains [92]) [97; 37] = true /\ ~ is_infix [92] [97; 37].
+Proof.
+  split; [vm_compute; reflexivity|]. split; [exists [97], [98]; reflexivity|]. split; [vm_compute; reflexivity|].
+  intros (a & b & H). destruct a as [|x a]; [discriminate H|]. destruct a as [|y a]; [cbn in H; inversion H|].
+  cbn in H. inversion H as [[H1 H2 H3]]. destruct a; discriminate H3.
+Qed.
+
 (* the patterns are themselves rendered as literals / bound as parameters, so they reach the server unchanged
    (literal_all_styles); nothing more to prove here *)
 
